@@ -7,10 +7,254 @@ import PV.Lemmas.Substitute
 namespace PV.Lemmas.MVocab
 open PV.MVocab PV.Table PV.Spec.Map PV.Lemmas.Table
 
+/-! ### the specification alone: `specId` through positions in a duplicate-free `seen` -/
+
+theorem specId_none_iff (seen : List Nat) (k : Nat) : specId seen k = none ↔ k ∉ seen := by
+  simp [specId]
+
+theorem specId_of_get (seen : List Nat) (hnd : seen.Nodup) (j k : Nat) (h : seen[j]? = some k) :
+    specId seen k = some (j + 1) := by
+  unfold specId
+  obtain ⟨hj, hk⟩ := List.getElem?_eq_some_iff.mp h
+  have : seen.idxOf? k = some j := by
+    rw [List.idxOf?_eq_some_iff]
+    refine ⟨hj, hk, ?_⟩
+    intro i hi heq
+    have hij : seen[i]? = seen[j]? := by
+      rw [h]; exact List.getElem?_eq_some_iff.mpr ⟨by omega, heq⟩
+    have := (List.getElem?_inj (by omega) hnd).mp hij
+    omega
+  rw [this]; rfl
+
+theorem specId_some (seen : List Nat) (k i : Nat) (h : specId seen k = some i) :
+    ∃ j, i = j + 1 ∧ seen[j]? = some k := by
+  unfold specId at h
+  cases hx : seen.idxOf? k with
+  | none => rw [hx] at h; simp at h
+  | some j =>
+    rw [hx] at h
+    simp only [Option.map_some, Option.some.injEq] at h
+    obtain ⟨hj, hk, _⟩ := List.idxOf?_eq_some_iff.mp hx
+    exact ⟨j, h.symm, List.getElem?_eq_some_iff.mpr ⟨hj, hk⟩⟩
+
+theorem get_append_left (seen ext : List Nat) (j k : Nat) (h : seen[j]? = some k) :
+    (seen ++ ext)[j]? = some k := by
+  obtain ⟨hj, _⟩ := List.getElem?_eq_some_iff.mp h
+  rw [List.getElem?_append_left hj]; exact h
+
+theorem nodup_snoc (seen : List Nat) (k : Nat) (hnd : seen.Nodup) (hk : k ∉ seen) :
+    (seen ++ [k]).Nodup := by
+  rw [List.nodup_append]
+  refine ⟨hnd, by simp, ?_⟩
+  intro a ha b hb
+  simp only [List.mem_singleton] at hb
+  subst hb
+  intro hab; subst hab; exact hk ha
+
+theorem specInsertAll_cons_some (seen : List Nat) (w : Word) (ws : List Word) (i : Nat)
+    (h : specId seen (key w) = some i) :
+    specInsertAll seen (w :: ws) = (i :: (specInsertAll seen ws).1, (specInsertAll seen ws).2) := by
+  rw [specInsertAll, h]
+
+theorem specInsertAll_cons_none (seen : List Nat) (w : Word) (ws : List Word)
+    (h : specId seen (key w) = none) :
+    specInsertAll seen (w :: ws) =
+      ((seen.length + 1) :: (specInsertAll (seen ++ [key w]) ws).1,
+        (specInsertAll (seen ++ [key w]) ws).2) := by
+  rw [specInsertAll, h]
+
+theorem spec_gen : ∀ (ws : List Word) (seen : List Nat), seen.Nodup →
+    (specInsertAll seen ws).2.Nodup ∧
+    (∀ (j k : Nat), seen[j]? = some k → (specInsertAll seen ws).2[j]? = some k) ∧
+    (∀ i, i < ws.length →
+      specId (specInsertAll seen ws).2 (key (ws.getD i [])) = some ((specInsertAll seen ws).1.getD i 0)) := by
+  intro ws
+  induction ws with
+  | nil =>
+    intro seen hnd
+    refine ⟨hnd, fun j k h => h, fun i hi => by simp at hi⟩
+  | cons w ws ih =>
+    intro seen hnd
+    cases hs : specId seen (key w) with
+    | some n =>
+      rw [specInsertAll_cons_some seen w ws n hs]
+      obtain ⟨h1, h2, h3⟩ := ih seen hnd
+      refine ⟨h1, h2, ?_⟩
+      intro i hi
+      cases i with
+      | zero =>
+        obtain ⟨j, hn, hj⟩ := specId_some seen _ _ hs
+        simp only [List.getD_cons_zero]
+        rw [hn]
+        exact specId_of_get _ h1 j _ (h2 j _ hj)
+      | succ i =>
+        simp only [List.getD_cons_succ]
+        exact h3 i (by simpa using hi)
+    | none =>
+      rw [specInsertAll_cons_none seen w ws hs]
+      have hnd' := nodup_snoc seen (key w) hnd ((specId_none_iff _ _).mp hs)
+      obtain ⟨h1, h2, h3⟩ := ih (seen ++ [key w]) hnd'
+      refine ⟨h1, fun j k h => h2 j k (get_append_left seen _ j k h), ?_⟩
+      intro i hi
+      cases i with
+      | zero =>
+        simp only [List.getD_cons_zero]
+        exact specId_of_get _ h1 seen.length _ (h2 seen.length _ (by simp))
+      | succ i =>
+        simp only [List.getD_cons_succ]
+        exact h3 i (by simpa using hi)
+
+theorem spec_len : ∀ (ws : List Word) (seen : List Nat), (specInsertAll seen ws).1.length = ws.length := by
+  intro ws
+  induction ws with
+  | nil => intro seen; rfl
+  | cons w ws ih =>
+    intro seen
+    cases hs : specId seen (key w) with
+    | some n => rw [specInsertAll_cons_some seen w ws n hs]; simp [ih]
+    | none => rw [specInsertAll_cons_none seen w ws hs]; simp [ih]
+
+/-! ### the table against the specification -/
+
+def R (m : M) (strings : List Word) (seen : List Nat) : Prop :=
+  strings.length = seen.length + 1 ∧ ∀ k, lookup m k = (specId seen k).map (fun i => (k, i))
+
+def Att (P : Word → Prop) (strings : List Word) (seen : List Nat) : Prop :=
+  ∀ (j k : Nat), seen[j]? = some k → key (strings.getD (j + 1) []) = k ∧ P (strings.getD (j + 1) [])
+
+theorem R_init : R [] [unk] [] := by
+  refine ⟨rfl, fun k => ?_⟩
+  simp [lookup, specId]
+
+theorem Att_init (P : Word → Prop) : Att P [unk] [] := by
+  intro j k h; simp at h
+
+theorem wgetD_append_lt (strings : List Word) (x : Word) (i : Nat) (h : i < strings.length) :
+    (strings ++ [x]).getD i [] = strings.getD i [] := by
+  simp [List.getD, List.getElem?_append_left h]
+
+theorem wgetD_append_length (strings : List Word) (x : Word) :
+    (strings ++ [x]).getD strings.length [] = x := by
+  simp [List.getD]
+
+theorem specId_snoc_ne (seen : List Nat) (k k' : Nat) (hnd : (seen ++ [k]).Nodup) (hne : k ≠ k') :
+    specId (seen ++ [k]) k' = specId seen k' := by
+  cases hs : specId seen k' with
+  | some i =>
+    obtain ⟨j, hi, hj⟩ := specId_some _ _ _ hs
+    rw [hi]
+    exact specId_of_get _ hnd j k' (get_append_left seen _ j k' hj)
+  | none =>
+    rw [specId_none_iff] at hs ⊢
+    simp only [List.mem_append, List.mem_singleton, not_or]
+    exact ⟨hs, fun h => hne h.symm⟩
+
+theorem R_insert (m : M) (strings : List Word) (seen : List Nat) (k : Nat) (w : Word)
+    (hr : R m strings seen) (hnd : seen.Nodup) (hs : specId seen k = none) :
+    R ((k, strings.length) :: m) (strings ++ [w]) (seen ++ [k]) := by
+  obtain ⟨hlen, hl⟩ := hr
+  have hnd' := nodup_snoc seen k hnd ((specId_none_iff _ _).mp hs)
+  refine ⟨by simp; omega, fun k' => ?_⟩
+  rw [PV.Lemmas.Substitute.lookup_cons]
+  by_cases hk : k = k'
+  · subst hk
+    simp only [beq_self_eq_true, if_true]
+    rw [specId_of_get _ hnd' seen.length k (by simp), hlen]
+    rfl
+  · have hk' : ((k, strings.length).1 == k') = false := by simpa using hk
+    simp only [hk', Bool.false_eq_true, if_false]
+    rw [specId_snoc_ne seen k k' hnd' hk]
+    exact hl k'
+
+theorem Att_insert (P : Word → Prop) (strings : List Word) (seen : List Nat) (w : Word)
+    (ha : Att P strings seen) (hlen : strings.length = seen.length + 1) (hp : P w) :
+    Att P (strings ++ [w]) (seen ++ [key w]) := by
+  intro j k h
+  by_cases hj : j < seen.length
+  · rw [List.getElem?_append_left hj] at h
+    rw [wgetD_append_lt strings w (j + 1) (by omega)]
+    exact ha j k h
+  · obtain ⟨hj', hk⟩ := List.getElem?_eq_some_iff.mp h
+    simp only [List.length_append, List.length_singleton] at hj'
+    have : j = seen.length := by omega
+    subst this
+    simp only [List.getElem_concat_length] at hk
+    rw [← hlen, wgetD_append_length]
+    exact ⟨hk, hp⟩
+
+theorem foi_found (t : Table) (strings : List Word) (w : Word) (e : Entry) (t' : Table)
+    (h : PV.Table.findOrInsert t (key w, strings.length) = some (true, e, t')) :
+    findOrInsert ⟨t, strings⟩ w = some (e.2, ⟨t', strings⟩) := by
+  simp only [PV.MVocab.findOrInsert, h]
+
+theorem foi_new (t : Table) (strings : List Word) (w : Word) (e : Entry) (t' : Table)
+    (h : PV.Table.findOrInsert t (key w, strings.length) = some (false, e, t')) :
+    findOrInsert ⟨t, strings⟩ w = some (strings.length, ⟨t', strings ++ [w]⟩) := by
+  simp only [PV.MVocab.findOrInsert, h]
+
+theorem insertAll_cons (v : V) (w : Word) (ws : List Word) (i : Nat) (v' : V)
+    (h : findOrInsert v w = some (i, v')) :
+    insertAll v (w :: ws) = (insertAll v' ws).map (fun r => (i :: r.1, r.2)) := by
+  simp only [insertAll, h]
+
+theorem insertAll_gen (P : Word → Prop) : ∀ (ws : List Word) (t : Table) (m : M) (strings : List Word)
+    (seen : List Nat), Inv t → Abs t m → R m strings seen → seen.Nodup → Att P strings seen →
+    (∀ w ∈ ws, key w ≠ 0 ∧ P w) →
+    ∃ t' m' strings', insertAll ⟨t, strings⟩ ws = some ((specInsertAll seen ws).1, ⟨t', strings'⟩) ∧
+      Inv t' ∧ Abs t' m' ∧ R m' strings' (specInsertAll seen ws).2 ∧
+      Att P strings' (specInsertAll seen ws).2 := by
+  intro ws
+  induction ws with
+  | nil =>
+    intro t m strings seen hi ha hr _ hatt _
+    exact ⟨t, m, strings, rfl, hi, ha, hr, hatt⟩
+  | cons w ws ih =>
+    intro t m strings seen hi ha hr hnd hatt h0
+    have h0' : ∀ x ∈ ws, key x ≠ 0 ∧ P x := fun x hx => h0 x (by simp [hx])
+    obtain ⟨hk, hp⟩ := h0 w (by simp)
+    rcases PV.Lemmas.Substitute.foi_val t m hi ha (key w) strings.length hk with
+      ⟨e, t1, hl, hfoi, hi1, ha1⟩ | ⟨e, t1, hl, hfoi, hi1, ha1⟩
+    · rw [hr.2 (key w)] at hl
+      cases hs : specId seen (key w) with
+      | none => rw [hs] at hl; simp at hl
+      | some n =>
+        rw [hs] at hl
+        simp only [Option.map_some, Option.some.injEq] at hl
+        subst hl
+        rw [insertAll_cons _ w ws _ _ (foi_found t strings w _ t1 hfoi),
+          specInsertAll_cons_some seen w ws n hs]
+        obtain ⟨t', m', strings', hrun, hi', ha', hr', hatt'⟩ :=
+          ih t1 m strings seen hi1 ha1 hr hnd hatt h0'
+        exact ⟨t', m', strings', by rw [hrun]; rfl, hi', ha', hr', hatt'⟩
+    · rw [hr.2 (key w)] at hl
+      have hs : specId seen (key w) = none := by
+        cases hs : specId seen (key w) with
+        | none => rfl
+        | some n => rw [hs] at hl; simp at hl
+      rw [insertAll_cons _ w ws _ _ (foi_new t strings w _ t1 hfoi),
+        specInsertAll_cons_none seen w ws hs]
+      obtain ⟨t', m', strings', hrun, hi', ha', hr', hatt'⟩ :=
+        ih t1 _ (strings ++ [w]) (seen ++ [key w]) hi1 ha1
+          (R_insert m strings seen (key w) w hr hnd hs)
+          (nodup_snoc seen (key w) hnd ((specId_none_iff _ _).mp hs))
+          (Att_insert P strings seen w hatt hr.1 hp) h0'
+      refine ⟨t', m', strings', ?_, hi', ha', hr', hatt'⟩
+      rw [hrun, hr.1]; rfl
+
+theorem find_spec (t : Table) (m : M) (strings : List Word) (seen : List Nat) (hi : Inv t)
+    (ha : Abs t m) (hr : R m strings seen) (w : Word) (hk : key w ≠ 0) :
+    find ⟨t, strings⟩ w = some (specFind seen w) := by
+  unfold PV.MVocab.find specFind
+  simp only
+  rw [find_abs t m hi ha (key w) hk, hr.2 (key w)]
+  cases specId seen (key w) <;> rfl
+
+/-! ### the theorems -/
+
 /-- the empty word hashes to 0, the table's "empty bucket" key: MutableVocab answers kUNK for it (outside C13's
 "non-zero keys"; recorded, and excluded by hypothesis below) -/
 theorem empty_word_key_zero : key [] = 0 := by
-  sorry
+  decide +kernel
 
 /-- FindOrInsert over any word list never fails and hands out exactly the specification's ids; afterwards `Size()` is
 one more than the number of distinct keys and `Find` answers the specification's id (0 for unknown words) -/
@@ -18,17 +262,44 @@ theorem insertAll_refines (ws : List Word) (h0 : ∀ w ∈ ws, key w ≠ 0) :
     ∃ v, insertAll init ws = some ((specInsertAll [] ws).1, v) ∧
       v.strings.length = (specInsertAll [] ws).2.length + 1 ∧
       (∀ w, key w ≠ 0 → find v w = some (specFind (specInsertAll [] ws).2 w)) := by
-  sorry
+  obtain ⟨t', m', strings', hrun, hi', ha', hr', _⟩ :=
+    insertAll_gen (fun _ => True) ws PV.Table.init [] [unk] [] init_inv init_abs R_init
+      List.nodup_nil (Att_init _) (fun w hw => ⟨h0 w hw, trivial⟩)
+  exact ⟨⟨t', strings'⟩, hrun, hr'.1, fun w hw => find_spec t' m' strings' _ hi' ha' hr' w hw⟩
 
 /-- two positions get the same id exactly when their words have the same key -/
 theorem spec_ids_eq_iff (ws : List Word) (i j : Nat) (hi : i < ws.length) (hj : j < ws.length) :
     ((specInsertAll [] ws).1.getD i 0 = (specInsertAll [] ws).1.getD j 0) ↔ key (ws.getD i []) = key (ws.getD j []) := by
-  sorry
+  obtain ⟨h1, _, h3⟩ := spec_gen ws [] List.nodup_nil
+  have hi' := h3 i hi
+  have hj' := h3 j hj
+  constructor
+  · intro h
+    rw [h] at hi'
+    obtain ⟨a, ha, hga⟩ := specId_some _ _ _ hi'
+    obtain ⟨b, hb, hgb⟩ := specId_some _ _ _ hj'
+    have : a = b := by omega
+    subst this
+    rw [hga] at hgb
+    exact Option.some.inj hgb
+  · intro h
+    rw [h, hj'] at hi'
+    exact (Option.some.inj hi').symm
 
 /-- ids are dense: every id handed out is between 1 and the number of distinct keys -/
 theorem spec_ids_range (ws : List Word) :
     ∀ x ∈ (specInsertAll [] ws).1, 1 ≤ x ∧ x ≤ (specInsertAll [] ws).2.length := by
-  sorry
+  intro x hx
+  obtain ⟨h1, _, h3⟩ := spec_gen ws [] List.nodup_nil
+  obtain ⟨i, hi, hxi⟩ := List.getElem_of_mem hx
+  have hlen := spec_len ws []
+  have := h3 i (by omega)
+  obtain ⟨a, ha, hga⟩ := specId_some _ _ _ this
+  obtain ⟨hlt, _⟩ := List.getElem?_eq_some_iff.mp hga
+  have hx' : (specInsertAll [] ws).1.getD i 0 = x := by
+    simp [List.getD, hi, hxi]
+  omega
+
 
 /-- `String(FindOrInsert(w)) = w`: with no two different words sharing a key, the string stored under the id a word
 received is that word, for every position of the input and at the end of the run (strings never move) -/
@@ -36,6 +307,21 @@ theorem strings_attached (ws : List Word) (h0 : ∀ w ∈ ws, key w ≠ 0)
     (hinj : ∀ a ∈ ws, ∀ b ∈ ws, key a = key b → a = b) (ids : List Nat) (v : V)
     (hr : insertAll init ws = some (ids, v)) :
     ∀ i, i < ws.length → v.strings.getD (ids.getD i 0) [] = ws.getD i [] := by
-  sorry
+  intro i hi
+  obtain ⟨t', m', strings', hrun, _, _, _, hatt⟩ :=
+    insertAll_gen (fun x => x ∈ ws) ws PV.Table.init [] [unk] [] init_inv init_abs R_init
+      List.nodup_nil (Att_init _) (fun w hw => ⟨h0 w hw, hw⟩)
+  have hrun' : insertAll init ws = some ((specInsertAll [] ws).1, ⟨t', strings'⟩) := hrun
+  rw [hr] at hrun'
+  simp only [Option.some.injEq, Prod.mk.injEq] at hrun'
+  obtain ⟨hids, hv⟩ := hrun'
+  subst hids hv
+  obtain ⟨_, _, h3⟩ := spec_gen ws [] List.nodup_nil
+  obtain ⟨j, hj, hgj⟩ := specId_some _ _ _ (h3 i hi)
+  obtain ⟨hkey, hmem⟩ := hatt j _ hgj
+  rw [hj]
+  have hmi : ws.getD i [] ∈ ws := by
+    simp [List.getD, hi]
+  exact hinj _ hmem _ hmi hkey
 
 end PV.Lemmas.MVocab
